@@ -1,9 +1,26 @@
-#!/bin/sh
-# Build the framework from files on disk only (offline).
-set -e
+#!/bin/bash
+# Build the framework from files on disk only (offline).  Every claimed property is built on its own:
+# a property whose proof or harness does not build must not stop the others from being set up
+# (its own check then reports the broken obligation).
 cd "$(dirname "$0")"
 export CARGO_NET_OFFLINE=true
 python3 checklib/regen_index.py
-(cd lean && lake build)
-(cd harness && cargo build --offline --bins)
+ids=$(python3 - <<'P'
+import json
+print(" ".join(c["property_id"] for c in json.load(open("MANIFEST.json"))["checks"]))
+P
+)
+for id in $ids; do
+  mods=$(python3 - "$id" <<'P'
+import sys
+sys.path.insert(0, "checklib")
+from props import PROPS
+print(" ".join(PROPS[sys.argv[1]]["modules"]))
+P
+)
+  (cd lean && lake build $mods parsley_model_$id > /tmp/setup_$id.log 2>&1) && echo "lean $id ok" || { echo "lean $id FAILED"; tail -5 /tmp/setup_$id.log; }
+  lc=$(echo $id | tr A-Z a-z)
+  (cd harness && cargo build --offline --bin $lc > /tmp/setup_cargo_$id.log 2>&1) && echo "harness $id ok" || { echo "harness $id FAILED"; tail -5 /tmp/setup_cargo_$id.log; }
+done
 echo setup done
+exit 0
